@@ -97,6 +97,24 @@ HEADER = ('From Coq Require Import List NArith ZArith Bool PrimFloat.\n'
 EPS = 1e-7
 
 
+def run_cases(res, name, case_type, check_fun, cases):
+    '''common.run_case_files, retried once with fewer parallel jobs when coqc
+    itself failed (machine load), and a failure that persists is reported.'''
+    bad, errs = common.run_case_files(name, HEADER, case_type, check_fun, cases)
+    if errs:
+        res.count(f'coqc-retry:{name}')
+        bad, errs = common.run_case_files(name, HEADER, case_type, check_fun,
+                                          cases, jobs=4)
+    if errs:
+        res.violation('correspondence',
+                      f'coqc failed on the generated case files of {name}: '
+                      f'{errs[0][-300:]}',
+                      {'input': {'tie': name},
+                       'theorem_or_correspondence': 'tie:' + name},
+                      found_input=False)
+    return bad, errs
+
+
 def _repo_funcs():
     from t4_geom_convert.Kernel.Surface import MacroBodies as MB
     return {'box': MB.box, 'rpp': MB.rpp, 'sph': MB.sph, 'rcc': MB.rcc,
@@ -548,7 +566,7 @@ def run(res, tier, seed, proofs_ok):
     res.sample({'body': meta[0][0], 'params': meta[0][1], 'impl': meta[0][3]})
     res.sample({'body': meta[-1][0], 'params': meta[-1][1],
                 'fault': meta[-1][2], 'impl': meta[-1][3]})
-    bad, errs = common.run_case_files('c03_body', HEADER, 'body_case',
+    bad, errs = run_cases(res, 'c03_body', 'body_case',
                                       'check_body', cases)
     res.obligation(f'tie:body ({len(cases)} parameter vectors: model '
                    'body_parts at binary64 = MacroBodies.*)',
@@ -615,7 +633,7 @@ def run(res, tier, seed, proofs_ok):
     descr += [rng.randrange(0, 10 ** rng.randint(1, 9)) for _ in range(200)]
     pf_cases = [cpair(cn(d), clist(cnat(i) for i in parse_facet(float(d))))
                 for d in descr]
-    bad, errs = common.run_case_files('c03_facet', HEADER, 'N * list nat',
+    bad, errs = run_cases(res, 'c03_facet', 'N * list nat',
                                       'check_parse_facet', pf_cases)
     res.obligation(f'tie:facet ({len(pf_cases)} descriptors: parse_facet)',
                    not bad and not errs, f'bad={bad[:5]} {errs[:1]}')
@@ -646,8 +664,7 @@ def run(res, tier, seed, proofs_ok):
             clist(cpair(cz(k), clist(cz(t) for t in ids))
                   for k, ids in got)))
         nb_meta.append((dic, got))
-    bad, errs = common.run_case_files(
-        'c03_number', HEADER, 'list (Z * list Z) * list (Z * list Z)',
+    bad, errs = run_cases(res, 'c03_number', 'list (Z * list Z) * list (Z * list Z)',
         'check_number', nb_cases)
     res.obligation(f'tie:number ({len(nb_cases)} collections dictionaries: '
                    'number_items)', not bad and not errs,
@@ -702,7 +719,7 @@ def run(res, tier, seed, proofs_ok):
                               f'reference {n} with facets {ids} gives {out}',
                               {'input': {'n': n, 'sub': sub, 'ids': ids},
                                'observed': out}, found_input=True)
-    bad, errs = common.run_case_files('c03_expand', HEADER, 'expand_case',
+    bad, errs = run_cases(res, 'c03_expand', 'expand_case',
                                       'check_expand', ex_cases)
     res.obligation(f'tie:expand ({len(ex_cases)} surface leaves: '
                    'pot_expand_surfs)', not bad and not errs,
